@@ -149,6 +149,14 @@ def ctr_lines(rnd, n, big):
             # re-initialised and then released unused (or after an empty call): the object still has to be wiped
             calls += ["R%d" % rnd.getrandbits(64)] + (["0"] if rnd.random() < 0.5 else [])
         L.append("ctr %s %d %s %d %s" % (hx(rbytes(rnd, kl)), nonce, ",".join(calls), rnd.randint(0, 1), hx(rbytes(rnd, ln))))
+    # caller buffers at every offset from a 16-byte boundary: a short call (partial block), then a long one whose output pointer is
+    # aligned / misaligned (vector loads and stores, non-temporal stores)
+    for hdr in (1, 5, 8, 15, 16, 0):
+        for ln in (300, 16384 + 32, 40000):
+            for _ in range(2):
+                ao = rnd.choice([(16 - hdr) % 16, rnd.randrange(16)])
+                L.append("ctr %s %d %s %d pattern:%d %d %d" % (hx(rbytes(rnd, rnd.choice([16, 32]))), rnd.getrandbits(64), ",".join(str(x) for x in (hdr, ln) if x or x == hdr),
+                                                             rnd.randint(0, 1), hdr + ln, rnd.randrange(16), ao))
     # long streams carrying the block counter across byte boundaries: 256 and 65536 blocks
     for ln, reps in ((4096 + 48, big), (65536 + 80, big), (1048576 + 64, max(1, big // 2))):
         for rep in range(max(reps, 5)):
